@@ -64,6 +64,9 @@ def int_of_str(I, s, base=10):
 WS = z3.Union(z3.Re(" "), z3.Re("\t"), z3.Re("\n"), z3.Re("\r"), z3.Re("\x0b"), z3.Re("\x0c"))
 
 
+UTF8_DECODE = z3.Function("utf8_decode", z3.StringSort(), z3.StringSort())
+
+
 def decode(I, s, enc="utf-8"):
     if isinstance(s, bytes):
         try:
@@ -76,6 +79,11 @@ def decode(I, s, enc="utf-8"):
         return SStr(s.term, False)
     if enc in ("ascii", "us-ascii"):
         raise PyRaise(UnicodeDecodeError("ascii", b"", 0, 1, "ordinal not in range(128)"), UnicodeDecodeError)
+    if enc.lower().replace("_", "-") in ("utf-8", "utf8"):
+        # non-ASCII UTF-8: either invalid (UnicodeDecodeError) or some text that is a function of the bytes
+        if I.path.choose(2) == 1:
+            raise PyRaise(UnicodeDecodeError("utf-8", b"", 0, 1, "invalid start byte"), UnicodeDecodeError)
+        return SStr(UTF8_DECODE(s.term), False)
     raise Undecided("decode of non-ASCII bytes")
 
 
